@@ -6,7 +6,7 @@ deviation-only modules, put together (`frame_core`).  Core Lean only.
 -/
 namespace Goyang.Lemmas.DevExt
 open Goyang.Model
-open Goyang.Lemmas.Tree (envOf keyOrder tstate forest0 pending0 pstate0 preDev devStage fixAll afterLoop leftoverPass
+open Goyang.Lemmas.Tree (envOf keyOrder tstate forest0 pending0 pstate0 preDev devStage fixAll afterLoop afterRounds leftoverPass
   allMods)
 open Goyang.Lemmas.Deviate (stageStep devsOf stageTargets stage_frame obsE obs)
 
@@ -223,9 +223,13 @@ theorem preDev_noPending (reg : Registry) (opts : Opts) (plug : Plug) (hs : NoPe
   have h1 : (afterLoop reg opts plug).2 = pstate0 reg opts plug := by
     unfold afterLoop
     exact augmentLoop_noPending reg hs _ _
+  have h1' : (afterRounds reg opts plug).2 = fixAll (pstate0 reg opts plug) := by
+    unfold afterRounds
+    rw [h1]
+    exact leftoverRounds_noPending reg (fixAll_noPending hs) _ _ _
   have h2 : leftoverPass reg opts plug = (fixAll (pstate0 reg opts plug), 0) := by
     unfold leftoverPass
-    rw [h1, ← Array.foldl_toList]
+    rw [h1', ← Array.foldl_toList]
     exact leftover_noPending reg (fixAll_noPending hs) _ 0
   unfold preDev
   rw [h2]
